@@ -179,3 +179,13 @@ def register(reg):
         "Trusted: nothing external; relations compare the library with itself on transformed scenes (bodies rebuilt from "
         "parameters). Only the force part of the wrenches is judged, as the property states.",
         "DESIGN.md section 4 C16")
+
+    reg("C12",
+        "metamorphic runtime monitor: every base scene is executed again with swapped arguments, under a common rigid motion and uniformly scaled (shapes rebuilt from parameters); scalars, booleans and unique closest points are compared",
+        "6 000 (quick) / 100 000 (thorough) base scenes (70% collider pairs over all type pairs and 8 placement classes, 30% "
+        "primitive scenes of C10) x 3 variants: ~45 000 scalar comparisons (gjk / original / Nesterov distances, mpr depth, "
+        "EPA |mtv|, 31 primitive functions), ~14 000 boolean comparisons outside the band, closest points where the optimum is "
+        "unique. Known: K20 (MPR depth is frame / order dependent for deep penetrations).",
+        "Trusted: nothing external (self-consistency). Mechanisms of base-property known findings are excluded by the same "
+        "predicates.",
+        "DESIGN.md section 4 C12")
